@@ -12,8 +12,102 @@ from ._util import pick
 FILTERS = []
 
 
+def merger_window(ctx):
+    """k-way merge: the n-th row handed to the output batch is the (offset + n)-th row popped
+    from the heap (the heap yields the merged order), and rows stop at the limit"""
+    def pop_counts(ev, E):
+        if re.search(r"BinaryHeap::<.*HeapItem>::pop$|BinaryHeap::pop$", ev.func):
+            return z3.BitVec(f"disc({ev.site})", 64) == 1
+        return None
+
+    def push_counts(ev, E):
+        if re.search(r"ColumnBatchBuilder::push_row$", ev.func):
+            return z3.BoolVal(True)
+        return None
+
+    needle = "flow-ordered_merger-{impl#2}-run-{closure#0}."
+    E, err = ctx.load(needle, ghosts={}, k=3, counters={"pops": pop_counts, "emits": push_counts})
+    r = oblig.Result("B-3", "OrderedStreamMerger (MergerState::run): a row is handed to the output batch only as the "
+                            "(offset + n)-th row popped from the merge heap, n = rows emitted so far + 1 - i.e. exactly the first "
+                            "`offset` rows of the merged order are discarded, whatever happens to the individual inputs - and no row "
+                            "is emitted once `limit` rows were")
+    r.functions = ["MergerState::run"]
+    r.bounds = "at most 3 loop iterations in total (stream priming + merge loop), offset and limit symbolic over usize; heap and streams opaque"
+    out = [r]
+    if E is None:
+        r.status = "inconclusive"
+        r.notes.append(err)
+        return out
+    pushes = oblig.events(E, r"ColumnBatchBuilder::push_row$")
+    pops = oblig.events(E, r"BinaryHeap::<.*HeapItem>::pop$|BinaryHeap::pop$")
+    if not oblig.need_anchor(r, pushes, "ColumnBatchBuilder::push_row") or not oblig.need_anchor(r, pops, "BinaryHeap::pop"):
+        return out
+    offset = E.sym("cap:self.offset", "usize")
+    lim = [e for e in oblig.events(E, r"Option::<usize>::unwrap_or$|Option::unwrap_or$") if e.args and "limit" in sym.describe(e.args[0])]
+    if not lim:
+        r.status = "inconclusive"
+        r.notes.append("anchor not found: self.limit.unwrap_or(..)")
+        return out
+    r.nontrivial = True
+    q = ctx.q
+    multi = False
+    for ev in pushes:
+        r.anchors.append(f"{ev.short}@bb{ev.bb}.{ev.layer}")
+        before = getattr(ev, "counts_before", {})
+        npop, nemit = ev.env.get("#pops"), before.get("emits")
+        if npop is None or nemit is None:
+            r.status = "inconclusive"
+            r.notes.append("ghost counters missing")
+            return out
+        # the row pushed must be the one just popped
+        src = " ".join(E.trace(ev.args[1], ev.env, depth=6)) if len(ev.args) > 1 else ""
+        if "BinaryHeap::pop" not in src:
+            r.status = "violated"
+            r.witness = {"what": "the row handed to the output batch is not the row just popped from the merge heap",
+                         "span": f"{ev.span[0]}:{ev.span[1]}" if ev.span else None, "call": ev.func[:100], "path": [], "model": {}}
+            return out
+        small = z3.ULT(offset, 1 << 20)
+        res, model = q.check(ev.reach, small, z3.ZeroExt(32, npop) != offset + z3.ZeroExt(32, nemit) + 1, domain=E.domain)
+        r.queries += 1
+        if res == z3.sat:
+            res_s, model_s = q.check(ev.reach, z3.ULE(offset, 4), z3.ZeroExt(32, npop) != offset + z3.ZeroExt(32, nemit) + 1, domain=E.domain)
+            if res_s == z3.sat:
+                model = model_s
+            r.status = "violated"
+            r.witness = {"what": f"with OFFSET {model.eval(offset, model_completion=True)} a row is emitted as row "
+                                 f"{model.eval(nemit, model_completion=True).as_long() + 1} of the answer although it is row "
+                                 f"{model.eval(npop, model_completion=True)} of the merged order (e.g. an input ran dry while rows were being skipped)",
+                         "span": f"{ev.span[0]}:{ev.span[1]}" if ev.span else None, "call": ev.func[:100],
+                         "path": E.path_of_model(model)[-12:], "model": {"offset": str(model.eval(offset, model_completion=True))}}
+            return out
+        if res != z3.unsat:
+            r.status = "inconclusive"
+            r.notes.append("solver returned unknown")
+            return out
+        lt = E.var_term(ev.env, "limit")
+        if lt is None:
+            r.status = "inconclusive"
+            r.notes.append("source variable `limit` not resolved at push_row")
+            return out
+        res, model = q.check(ev.reach, z3.UGE(z3.ZeroExt(32, nemit), lt), domain=E.domain)
+        r.queries += 1
+        if res == z3.sat:
+            r.status = "violated"
+            r.witness = {"what": "a row is emitted although `limit` rows were already emitted",
+                         "span": f"{ev.span[0]}:{ev.span[1]}" if ev.span else None, "call": ev.func[:100], "path": [], "model": {}}
+            return out
+        res, _ = q.check(ev.reach, npop == 2, domain=E.domain)
+        r.queries += 1
+        multi = multi or res == z3.sat
+    if not multi:
+        r.status = "inconclusive"
+        r.notes.append("no emitted row beyond the first pop is reachable within the unrolling (vacuity guard)")
+    return out
+
+
 def obligations(ctx):
     out = pick(writerspec.accept_row(ctx), [("B-1", "window"), ("B-1b", "dedup")])
+    out += merger_window(ctx)
     b = Builder(ctx, "handlers-query-handler-{impl#0}-handle-{closure#0}.", "QueryCommandHandler::handle", {})
     E, q = b.E, ctx.q
     r = b.mk("B-2", "QueryCommandHandler::handle: the execution pipeline is built only if the query does not combine an "
